@@ -218,6 +218,12 @@ func TLBSchemas(thorough bool) []TLBSchema {
 		add(&T{K: "Either", A: u(8), B: i(16)})
 		add(&T{K: "Either", A: named("Inner"), B: &T{K: "Ref", A: named("Alt")}})
 		add(&T{K: "Either", A: &T{K: "Bool"}, B: &T{K: "Coins"}})
+		// the reference on the left branch, on both, with equal and with different types
+		add(&T{K: "Either", A: &T{K: "Ref", A: named("Inner")}, B: named("Inner")})
+		add(&T{K: "Either", A: &T{K: "Ref", A: named("Inner")}, B: named("Alt")})
+		add(&T{K: "Either", A: &T{K: "Ref", A: named("Inner")}, B: &T{K: "Ref", A: named("Inner")}})
+		add(&T{K: "Either", A: &T{K: "Ref", A: u(8)}, B: u(8)})
+		add(&T{K: "Either", A: &T{K: "Ref", A: u(8)}, B: &T{K: "Ref", A: i(16)}})
 		add(&T{K: "Maybe", A: &T{K: "Either", A: u(8), B: i(16)}})
 		add(&T{K: "Maybe", A: &T{K: "EitherRef", A: named("Inner")}})
 		out = append(out, s)
